@@ -24,6 +24,29 @@ MN = 0
 CALIB_COLLS = (0, 1)
 CALIB_TYPES = (0, 1)
 NDID = 3
+# searched-only collections of the fixture (harness/impl/c04_impl.py): RUN 2 holds the k=0 datasets, RUN 4 the k=1 datasets,
+# CHAINED 5 = [1, 0], 6 = [0, 2], 8 = [5, 4, 0]; 3 = TAGGED (always empty here)
+RUN_K = {2: 0, 4: 1}
+CHAINS = {5: [1, 0], 6: [0, 2], 8: [5, 4, 0]}
+XPATHS_FIXED = [[8], [6]]
+XPATHS_POOL = [[5], [2, 0], [0, 4, 1], [6, 5], [3, 1, 0], [1, 6], [4, 5], [8, 1]]
+QD_PATHS = [[5], [0, 1]]
+
+
+def flat_path(path):
+    """the order in which a search path is consulted: chains replaced by their children (depth first), a collection that
+    occurs again later is not consulted twice"""
+    out = []
+
+    def walk(c):
+        if c in CHAINS:
+            for k in CHAINS[c]:
+                walk(k)
+        elif c not in out:
+            out.append(c)
+    for c in path:
+        walk(c)
+    return out
 
 
 def ds_of(ty, did, k):
@@ -150,6 +173,7 @@ def check_history(ctx: Ctx, g: Grid, hist: dict, steps: list, tag: str):
         if first_fail is None:
             first_fail = i
         rep = {"grid": g.pts, "ops": hist["ops"][: i + 1], "probes": hist["probes"], "keys": hist["keys"], "paths": hist.get("paths", []),
+               "xpaths": hist.get("xpaths", []), "xpath_probes": hist.get("xpath_probes", []),
                "failing_step": i, "observed": {k: steps[i].get(k) for k in ("out", "msg", "rows")}}
         rep.update(extra)
         ctx.oracle_fail(sig, rep, what)
@@ -219,9 +243,15 @@ def check_history(ctx: Ctx, g: Grid, hist: dict, steps: list, tag: str):
         def judge(colls, t, d, pi, res, what):
             probe = tuple(probes[pi])
             for c in colls:
-                ds = book.datasets_in((c, t, d), probe)
-                if ds:
+                if c in RUN_K:
+                    # a RUN holds its dataset whatever the time: any probe that has an instant finds it
+                    x = ds_of(t, d, RUN_K[c])
+                    ds = {x} if (x in book.alive and probe[0] < probe[1]) else set()
+                    nrows = len(ds)
+                else:
+                    ds = book.datasets_in((c, t, d), probe)
                     nrows = sum(1 for (b, e, _) in byk.get((c, t, d), []) if b < e and max(b, probe[0]) < min(e, probe[1]))
+                if ds:
                     break
             else:
                 ds, nrows = set(), 0
@@ -242,6 +272,14 @@ def check_history(ctx: Ctx, g: Grid, hist: dict, steps: list, tag: str):
             judge([c], t, d, pi, res, "find_dataset")
         for qi, t, d, pi, res in ob["path"]:
             judge(hist["paths"][qi], t, d, pi, res, "find_dataset-path")
+        for xi, t, d, pi, res in ob.get("xpath", []):
+            judge(flat_path(hist["xpaths"][xi]), t, d, pi, res, "find_dataset-chain")
+        for qi, t, d, pi, res in ob.get("qdp", []):
+            fp = flat_path(hist["qd_paths"][qi])
+            if isinstance(res, str) and any((c, t) not in summarised for c in fp):
+                ctx.hist("outside-property", "query_datasets error on never-certified collection")   # see below
+                continue
+            judge(fp, t, d, pi, res, "query_datasets-path")
         for c, t, d, pi, res in ob.get("qd", []):
             if isinstance(res, str) and (c, t) not in summarised and not book.valid.get((c, t, d)):
                 # OUTSIDE C04 (see design.d/C04.md): while a dataset type has never been certified into the collection the new
@@ -350,9 +388,13 @@ def gen_history(rng, g: Grid, length: int, qd: bool):
     n1 = len(probes)
     hist = {"ops": ops, "probes": probes, "keys": keys, "paths": [[0, 1], [1, 0]],
             "path_probes": sorted(rng.sample(range(n1 - 6), 2)) + list(range(n1 - 4, n1))}
+    # search paths with CHAINED / RUN / TAGGED collections: probes = 2 instants, the empty span, everything, 2 grid spans
+    hist["xpaths"] = XPATHS_FIXED + rng.sample(XPATHS_POOL, 2)
+    hist["xpath_probes"] = sorted(rng.sample(range(n1 - 6), 2)) + [n1 - 6, n1 - 5] + sorted(rng.sample(range(n1 - 4, n1), 2))
     if qd:
         hist["query_datasets"] = True
         hist["qd_probes"] = sorted(rng.sample(range(n1), 6))
+        hist["qd_paths"] = QD_PATHS
     return hist
 
 
@@ -370,6 +412,17 @@ def cres(r):
         return "Ambiguous"
     if isinstance(r, int) and r >= 0:
         return f"(Unique {cn(r)})"
+    return None
+
+
+def cres_qd(res):
+    """result of query.datasets(find_first=True): [] / [ds] / -2 (CalibrationLookupError); anything else has no counterpart"""
+    if res == -2:
+        return "Ambiguous"
+    if res == []:
+        return "NotFound"
+    if isinstance(res, list) and len(res) == 1 and isinstance(res[0], int) and res[0] >= 0:
+        return f"(Unique {cn(res[0])})"
     return None
 
 
@@ -404,11 +457,28 @@ def coq_case(hist, steps):
             if r is None:
                 return None
             paths.append(f"({clist(cn(c) for c in hist['paths'][qi])}, {cn(t)}, {cn(d)}, {cts(hist['probes'][pi])}, {r})")
-        items.append(f"({cop(op)}, mkObs {out} {rows} {clist(finds)} {clist(paths)})")
+        xpaths = []
+        for xi, t, d, pi, res in ob.get("xpath", []):
+            r = cres(res)
+            if r is None:
+                return None
+            xpaths.append(f"({clist(cn(c) for c in hist['xpaths'][xi])}, {cn(t)}, {cn(d)}, {cts(hist['probes'][pi])}, {r})")
+        # the new query system's find-first search with `<type>.timespan OVERLAPS :ts` is a view of the same interval map:
+        # no row / one dataset / CalibrationLookupError  ==  NotFound / Unique / Ambiguous of the model (errors of the
+        # doomed-search kind are outside C04 and are left to the oracle's bookkeeping)
+        for c, t, d, pi, res in ob.get("qd", []):
+            r = cres_qd(res)
+            if r is not None:
+                finds.append(f"({cn(c)}, {cn(t)}, {cn(d)}, {cts(hist['probes'][pi])}, {r})")
+        for qi, t, d, pi, res in ob.get("qdp", []):
+            r = cres_qd(res)
+            if r is not None:
+                xpaths.append(f"({clist(cn(c) for c in hist['qd_paths'][qi])}, {cn(t)}, {cn(d)}, {cts(hist['probes'][pi])}, {r})")
+        items.append(f"({cop(op)}, mkObs {out} {rows} {clist(finds)} {clist(paths)} {clist(xpaths)})")
     return clist(items)
 
 
-HDR = ("From Coq Require Import ZArith NArith List.\nFrom V Require Import Gen.TimespanGen Model.Timespan Model.Calib Model.CalibCheck.\n"
+HDR = ("From Coq Require Import ZArith NArith List.\nFrom V Require Import Gen.TimespanGen Model.Timespan Model.Calib Model.CalibPath Model.CalibCheck.\n"
        "Import ListNotations.\n")
 
 
@@ -504,7 +574,7 @@ def _model_compare(ctx: Ctx, name, cases, metas):
         where = out.strip().splitlines()[-2:] if rc == 0 else out[-300:]
         if metas[i]["oracle_failed"]:
             continue   # the oracle already reported this history; the model describes the unbroken code
-        ctx.disagreement(name, metas[i], f"model and implementation differ; first_bad (10*step+component 1 outcome 2 rows 3 find 4 path) = {where}")
+        ctx.disagreement(name, metas[i], f"model and implementation differ; first_bad (10*step+component 1 outcome 2 rows 3 find 4 path 5 chained/run path) = {where}")
 
 
 def run(ctx: Ctx):
@@ -535,7 +605,11 @@ def run(ctx: Ctx):
         rep = json.loads(Path(ctx.replay).read_text())
         g = Grid(pts=rep["grid"]) if rep.get("grid") else Grid()
         hist = {"ops": rep["ops"], "probes": rep.get("probes") or gen_history(ctx.rng, g, 0, False)["probes"],
-                "keys": rep.get("keys") or [[0, 0, 0]], "paths": rep.get("paths") or [[0, 1]]}
+                "keys": rep.get("keys") or [[0, 0, 0]], "paths": rep.get("paths") or [[0, 1]],
+                "xpaths": rep.get("xpaths") or (XPATHS_FIXED + XPATHS_POOL)}
+        hist["xpath_probes"] = rep.get("xpath_probes") or list(range(len(hist["probes"])))
+        if rep.get("path_probes"):
+            hist["path_probes"] = rep["path_probes"]
         _process(ctx, g, _run_batch(ctx, [hist]), "replay", cases, metas, shrink=False)
         _model_compare(ctx, "replay", cases, metas)
         return
@@ -549,7 +623,10 @@ def run(ctx: Ctx):
         base = gen_history(ctx.rng.__class__(f.name), g, 0, False)
         corpus.append({"ops": rep["ops"], "probes": rep.get("probes") or base["probes"], "keys": rep.get("keys") or [[0, 0, 0], [0, 0, 1]],
                        "paths": rep.get("paths") or [[0, 1], [1, 0]], "path_probes": list(range(0, len(base["probes"]), 3)),
-                       "query_datasets": True, "qd_probes": list(range(0, len(base["probes"]), 4)), "corpus_file": f.name, "_grid": g})
+                       "query_datasets": True, "qd_probes": list(range(0, len(base["probes"]), 4)), "qd_paths": QD_PATHS,
+                       "xpaths": rep.get("xpaths") or (XPATHS_FIXED + XPATHS_POOL),
+                       "xpath_probes": rep.get("xpath_probes") or list(range(0, len(base["probes"]), 3)) + [len(base["probes"]) - 6],
+                       "corpus_file": f.name, "_grid": g})
     if corpus:
         cg = [h.pop("_grid") for h in corpus]
         res = _run_batch(ctx, corpus, per_worker=1)
